@@ -5,6 +5,7 @@ From Coq Require Import List ZArith String Bool Arith Lia Setoid.
 Import ListNotations.
 From TV Require Import Lib.Obs C41.Model C41.Spec C41.Run C41.Proofs1.
 Local Open Scope Z_scope.
+Set Default Proof Using "Type".
 
 (* ---------- simulation invariant: pid-keyed dict  <->  worker-keyed map ---------- *)
 Definition Inv (n : nat) (ch : cmap) (w : wmap) : Prop :=
@@ -119,16 +120,19 @@ Proof.
   intros E [_ HF]. rewrite nz_cons_nonzero in HF by exact E. apply HF. left. reflexivity.
 Qed.
 
+Section WithEk.
+Variable ek : nat * nat.   (* the exceptions os.fork / os.wait raise when their scripted results run out *)
+
 (* ---------- unfolding equations ---------- *)
 Lemma spec_sup_unfold n budget w r tr o :
-  spec_sup n budget w r tr o =
+  spec_sup ek n budget w r tr o =
   if all_finished n w then accept_if (is_nil tr && is_exit0 o)
   else
     match tr with
-    | [] => accept_if (is_outofwaits o)
+    | [] => accept_if (is_waiterr (snd ek) o)
     | EWait pid st :: tr1 =>
       match owner n w pid with
-      | None => spec_sup n budget w r tr1 o
+      | None => spec_sup ek n budget w r tr1 o
       | Some i =>
         match tr1 with
         | ELog i' pid' k :: tr2 =>
@@ -137,15 +141,15 @@ Lemma spec_sup_unfold n budget w r tr o :
             if r + 1 >? budget then accept_if (is_nil tr2 && is_toomany o)
             else
               match tr2 with
-              | [] => accept_if (is_outofforks o)
+              | [] => accept_if (is_forkerr (fst ek) o)
               | EFork i'' p :: tr3 =>
                 if negb (Nat.eqb i'' i) then Reject
                 else if p =? 0 then accept_if (is_nil tr3 && is_child_of i o)
                 else if pid_live n (upd w i Finished) p then EnvBroken
-                else spec_sup n budget (upd w i (Running p)) (r + 1) tr3 o
+                else spec_sup ek n budget (upd w i (Running p)) (r + 1) tr3 o
               | _ => Reject
               end
-          else spec_sup n budget (upd w i Finished) r tr2 o
+          else spec_sup ek n budget (upd w i Finished) r tr2 o
         | _ => Reject
         end
       end
@@ -155,44 +159,46 @@ Proof. destruct tr; reflexivity. Qed.
 
 Lemma supervise_cons maxr pid st ws fs ch nr :
   ch <> [] ->
-  supervise maxr ((pid, st) :: ws) fs ch nr =
+  supervise ek maxr ((pid, st) :: ws) fs ch nr =
   pre [EWait pid st]
       (match cm_find pid ch with
-       | None => supervise maxr ws fs ch nr
+       | None => supervise ek maxr ws fs ch nr
        | Some id =>
          pre [ELog id pid (exit_log st)]
              (if abnormal_exit st then
                 if nr + 1 >? maxr then ([], OTooMany)
                 else match fs with
-                     | [] => ([], OOutOfForks)
+                     | [] => ([], (OForkErr (fst ek)))
                      | p :: fs' =>
                        if p =? 0 then ([EFork id 0], OChild id id)
                        else pre [EFork id p]
-                                (supervise maxr ws fs' (cm_set p id (cm_remove pid ch)) (nr + 1))
+                                (supervise ek maxr ws fs' (cm_set p id (cm_remove pid ch)) (nr + 1))
                      end
-              else supervise maxr ws fs (cm_remove pid ch) nr)
+              else supervise ek maxr ws fs (cm_remove pid ch) nr)
        end).
 Proof. destruct ch; [congruence|reflexivity]. Qed.
 
 Lemma is_child_of_refl i : is_child_of i (OChild i i) = true.
 Proof. simpl. rewrite Nat.eqb_refl. reflexivity. Qed.
 
+Ltac acc := left; simpl; rewrite ?Nat.eqb_refl; reflexivity.
+
 (* ---------- the supervision loop refines the specification ---------- *)
 Lemma supervise_ok n maxr : forall waits fs ch nr w,
   Inv n ch w -> Started n w ->
-  good n fs w (spec_sup n maxr w nr (fst (supervise maxr waits fs ch nr))
-                        (snd (supervise maxr waits fs ch nr))).
+  good n fs w (spec_sup ek n maxr w nr (fst (supervise ek maxr waits fs ch nr))
+                        (snd (supervise ek maxr waits fs ch nr))).
 Proof.
   induction waits as [|[pid st] ws IH]; intros fs ch nr w HI HS.
   - (* os.wait() raises *)
     rewrite spec_sup_unfold. destruct ch as [|c ch].
-    + simpl. rewrite (proj2 (Inv_allfin n [] w HI HS) eq_refl). left. reflexivity.
+    + simpl. rewrite (proj2 (Inv_allfin n [] w HI HS) eq_refl). acc.
     + simpl. destruct (all_finished n w) eqn:AF.
       * apply (Inv_allfin n (c :: ch) w HI HS) in AF. discriminate.
-      * left. reflexivity.
+      * acc.
   - destruct ch as [|c ch0] eqn:Ech.
     + rewrite spec_sup_unfold. simpl.
-      rewrite (proj2 (Inv_allfin n [] w HI HS) eq_refl). left. reflexivity.
+      rewrite (proj2 (Inv_allfin n [] w HI HS) eq_refl). acc.
     + rewrite <- Ech in *. assert (Hne : ch <> []) by (rewrite Ech; discriminate).
       rewrite supervise_cons by exact Hne.
       rewrite spec_sup_unfold.
@@ -206,12 +212,12 @@ Proof.
       rewrite abnormal_exit_eq.
       destruct (abnormal st) eqn:AB.
       * destruct (nr + 1 >? maxr) eqn:B.
-        { left. reflexivity. }
+        { acc. }
         destruct fs as [|p fs'].
-        { left. reflexivity. }
+        { acc. }
         destruct (p =? 0) eqn:P0.
         { cbn [fst snd]. rewrite Nat.eqb_refl. cbn [negb]. apply Z.eqb_eq in P0. subst p.
-          rewrite Z.eqb_refl. rewrite is_child_of_refl. left. reflexivity. }
+          rewrite Z.eqb_refl. rewrite is_child_of_refl. acc. }
         cbn [pre fst snd app]. rewrite Nat.eqb_refl. cbn [negb]. rewrite P0.
         destruct (pid_live n (upd w i Finished) p) eqn:PL.
         { right. split; [reflexivity|]. intro HF.
@@ -239,20 +245,34 @@ Proof.
 Qed.
 
 (* ---------- the start-up loop ---------- *)
+Lemma start_all_nil maxr waits fs ch :
+  start_all ek maxr waits [] fs ch = supervise ek maxr waits fs ch 0.
+Proof. reflexivity. Qed.
+
+Lemma start_all_cons maxr waits i ids fs ch :
+  start_all ek maxr waits (i :: ids) fs ch =
+  match fs with
+  | [] => ([], OForkErr (fst ek))
+  | pid :: fs' =>
+    if pid =? 0 then ([EFork i 0], OChild i i)
+    else pre [EFork i pid] (start_all ek maxr waits ids fs' (cm_set pid i ch))
+  end.
+Proof. reflexivity. Qed.
+
 Lemma start_all_ok n maxr waits : forall m k fs ch w,
   (k + m = n)%nat -> Inv n ch w ->
   (forall i, (i < k)%nat -> w i <> NotStarted) ->
   (forall i, (k <= i)%nat -> w i = NotStarted) ->
-  good n fs w (spec_init n maxr (seq k m) w (fst (start_all maxr waits (seq k m) fs ch))
-                         (snd (start_all maxr waits (seq k m) fs ch))).
+  good n fs w (spec_init ek n maxr (seq k m) w (fst (start_all ek maxr waits (seq k m) fs ch))
+                         (snd (start_all ek maxr waits (seq k m) fs ch))).
 Proof.
   induction m as [|m IH]; intros k fs ch w Hkm HI Hlo Hhi.
-  - simpl. apply supervise_ok; auto. intros i Hi. apply Hlo. lia.
-  - cbn [seq start_all spec_init]. destruct fs as [|p fs'].
-    { left. reflexivity. }
+  - cbn [seq spec_init]. rewrite start_all_nil. apply supervise_ok; auto. intros i Hi. apply Hlo. lia.
+  - cbn [seq spec_init]. rewrite start_all_cons. destruct fs as [|p fs'].
+    { acc. }
     destruct (p =? 0) eqn:P0.
     { cbn [fst snd]. rewrite Nat.eqb_refl. cbn [negb]. apply Z.eqb_eq in P0. subst p.
-      rewrite Z.eqb_refl, is_child_of_refl. left. reflexivity. }
+      rewrite Z.eqb_refl, is_child_of_refl. acc. }
     cbn [pre fst snd app]. rewrite Nat.eqb_refl. cbn [negb]. rewrite P0.
     destruct (pid_live n w p) eqn:PL.
     { right. split; [reflexivity|]. intro HF.
@@ -277,7 +297,7 @@ Qed.
 (* ---------- the whole call ---------- *)
 Lemma eff_procs_want np cpu : eff_procs np cpu = want_procs np cpu.
 Proof.
-  unfold eff_procs, want_procs. destruct np as [z|]; auto.
+  unfold eff_procs, eff_procs_d, want_procs. change (d_cpu_bound desc_expected) with 0. destruct np as [z|]; auto.
   destruct (z <=? 0) eqn:A, (0 <? z) eqn:B; auto; exfalso.
   - apply Z.leb_le in A. apply Z.ltb_lt in B. lia.
   - apply Z.leb_gt in A. apply Z.ltb_ge in B. lia.
@@ -289,22 +309,30 @@ Proof. destruct mr; reflexivity. Qed.
 Lemma Inv_init n : Inv n [] (fun _ => NotStarted).
 Proof. intros pid i. simpl. split; [discriminate|]. intros [_ H]. discriminate. Qed.
 
+Lemma fork_processes_None np cpu mr fs ws :
+  fork_processes ek None np cpu mr fs ws =
+  let x := start_all ek (eff_budget mr) ws (seq 0 (eff_procs np cpu)) fs [] in
+  {| r_trace := EStart (eff_procs np cpu) :: fst x;
+     r_out := snd x;
+     r_task := match snd x with OChild _ t => Some t | _ => None end |}.
+Proof. reflexivity. Qed.
+
 Lemma fork_processes_good pt np cpu mr fs ws :
   match pt with
-  | Some _ => spec_check pt np cpu mr (fork_processes pt np cpu mr fs ws) = Accept
+  | Some _ => spec_check ek pt np cpu mr (fork_processes ek pt np cpu mr fs ws) = Accept
   | None => good (want_procs np cpu) fs (fun _ => NotStarted)
-                 (spec_check pt np cpu mr (fork_processes pt np cpu mr fs ws))
+                 (spec_check ek pt np cpu mr (fork_processes ek pt np cpu mr fs ws))
   end.
 Proof.
   destruct pt as [t|].
   - simpl. rewrite Nat.eqb_refl. reflexivity.
-  - unfold fork_processes, spec_check. cbn [r_trace r_out r_task].
+  - rewrite fork_processes_None. cbn zeta. unfold spec_check. cbn [r_trace r_out r_task].
     rewrite eff_procs_want, eff_budget_want. rewrite Nat.eqb_refl.
     set (n := want_procs np cpu).
-    assert (T : task_ok (snd (start_all (want_budget mr) ws (seq 0 n) fs []))
-                        match snd (start_all (want_budget mr) ws (seq 0 n) fs []) with
+    assert (T : task_ok (snd (start_all ek (want_budget mr) ws (seq 0 n) fs []))
+                        match snd (start_all ek (want_budget mr) ws (seq 0 n) fs []) with
                         | OChild _ t => Some t | _ => None end = true).
-    { destruct (snd (start_all (want_budget mr) ws (seq 0 n) fs [])); simpl; auto.
+    { destruct (snd (start_all ek (want_budget mr) ws (seq 0 n) fs [])); simpl; auto.
       apply Nat.eqb_refl. }
     rewrite T. cbn [andb negb].
     apply start_all_ok; auto.
@@ -313,7 +341,7 @@ Proof.
 Qed.
 
 Lemma never_rejected pt np cpu mr fs ws :
-  spec_check pt np cpu mr (fork_processes pt np cpu mr fs ws) <> Reject.
+  spec_check ek pt np cpu mr (fork_processes ek pt np cpu mr fs ws) <> Reject.
 Proof.
   pose proof (fork_processes_good pt np cpu mr fs ws) as H. destruct pt.
   - rewrite H. discriminate.
@@ -322,17 +350,11 @@ Qed.
 
 Lemma accepted_when_fresh pt np cpu mr fs ws :
   NoDup (nz fs) ->
-  spec_check pt np cpu mr (fork_processes pt np cpu mr fs ws) = Accept.
+  spec_check ek pt np cpu mr (fork_processes ek pt np cpu mr fs ws) = Accept.
 Proof.
   intro ND. pose proof (fork_processes_good pt np cpu mr fs ws) as H. destruct pt; auto.
   destruct H as [H|[_ NF]]; auto. exfalso. apply NF. split; auto.
   intros p _ j _. discriminate.
 Qed.
 
-Lemma check_case_run_case c : check_case c (run_case c) = true.
-Proof.
-  destruct c as [[[[[pt np] cpu] mr] fs] ws]. unfold check_case, run_case.
-  rewrite parse_render.
-  pose proof (never_rejected pt np cpu mr fs ws) as H.
-  destruct (spec_check pt np cpu mr (fork_processes pt np cpu mr fs ws)); auto; congruence.
-Qed.
+End WithEk.
